@@ -237,6 +237,42 @@ func (q Seq) Expand() []bool {
 				out[i] = !out[i]
 			}
 		}
+	case "wordrecord": // cumulative-sum walk whose final record is set by one whole machine word of ones: lead-in pad Pos[1], A ones
+		// (record A), Pos[0] zeros (deficit), alternating bits up to the next multiple of the word size B, then B ones, then a walk that stays just below that record;
+		// Pos[2] = 1 reverses the sequence (the same shape seen from the back)
+		w := max(q.B, 1)
+		i := 0
+		put := func(b bool) {
+			if i < n {
+				out[i] = b
+				i++
+			}
+		}
+		for k := 0; k < q.Pos[1]/2*2; k++ {
+			put(k%2 == 0)
+		}
+		for k := 0; k < q.A; k++ {
+			put(true)
+		}
+		for k := 0; k < q.Pos[0]; k++ {
+			put(false)
+		}
+		for k := 0; i%w != 0; k++ {
+			put(k%2 == 0)
+		}
+		for k := 0; k < w; k++ {
+			put(true)
+		}
+		put(false)
+		put(false)
+		for k := 0; i < n; k++ { // the rest of the walk stays just below the record
+			put(k%2 == 0)
+		}
+		if len(q.Pos) > 2 && q.Pos[2] == 1 {
+			for a, b := 0, n-1; a < b; a, b = a+1, b-1 {
+				out[a], out[b] = out[b], out[a]
+			}
+		}
 	case "nearflat": // every byte value (almost) equally often (shuffled), then A random single-bit flips: statistics just off their ideal value
 		nb := n / 8
 		bs := make([]byte, nb)
